@@ -8,6 +8,8 @@ import SJ.Proofs.ParsedFinite
 import SJ.Proofs.LexTopParser
 import SJ.Props.C03
 import SJ.Proofs.TypedSerClosed
+import SJ.Proofs.TypedFloatLink
+import SJ.Proofs.TypedPrettyAll
 /-!
 # C04 — serialise then deserialise is the identity (the `Value` clause)
 
@@ -424,25 +426,31 @@ example : Spec.WF.floatRT (specCfg { fr := true }) ext0 0x3ff8000000000000 = tru
 /-! ## the typed clause: serialise a typed value, read it back with the typed deserializer -/
 
 /-- **C04 (typed values, compact) — partial.** For every schema `s` of the fragment `agreeFragT` — bool, the twelve integer
-    types (128-bit included, any value of the type), char, `String`, byte buffers, unit / unit structs, `Option`, newtype
+    types (128-bit included, any value of the type), `f64`, char, `String`, byte buffers, unit / unit structs, `Option`, newtype
     structs, `Vec`, tuples, maps with every key kind (string, the twelve integer widths, bool, char, unit-variant enums),
     structs, externally tagged enums with unit / newtype / non-empty tuple / struct variants — and every well-formed value
     `v` of that type (`wfTV`: the value
-    inhabits the type, strings valid UTF-8, `char`s scalar values, field / variant / key names distinct valid UTF-8, and
-    not the documented exception: no `Some(x)` whose `x` serialises as JSON `null`) whose text nests at most 127 deep
-    (or the limit is off): `to_string` — the calls `Serialize` makes (`progOf s v`) run through the serializer model —
+    inhabits the type, floats finite, strings valid UTF-8, `char`s scalar values, field / variant / key names distinct valid
+    UTF-8, and not the documented exception: no `Some(x)` whose `x` serialises as JSON `null`) whose text nests at most 127
+    deep (or the limit is off) and whose `f64` members the printer / parser pair returns (`hF`: the named hypothesis
+    `FloatsRoundTrip` on the members — discharged from `RyuShortest` under `float_roundtrip`: `c04_typed_fr`; vacuous without
+    `f64` members: `c04_typed_nofloat`; in the default build it holds for members printing as short literals, C08):
+    `to_string` — the calls `Serialize` makes (`progOf s v`) run through the serializer model —
     succeeds, and `from_str::<T>` of that text (typed deserializer + `end()`, any source) returns `v`.
     By composition: C03 (`c03_compact`: the text is `render` of the program's image), `image_progOf` (that image is the
     image of the `Value` `valueOf s v`), `fromValue_valueOf` (`from_value(to_value(v)) = v`) and the text leg of C16
     (`agree_gen`: the typed deserializer on the printed `Value` returns what `from_value` returns).
-    Missing (named): the pretty formatter (the text leg is proved for the compact layout only; the correspondence op `rtm`
-    runs both formatters); `f64` / `f32` fields (the float step: `FloatsRoundTrip` through the typed number scanner);
-    `Value` members (the text leg covers `Value` targets, but `wfTV` does not yet carry `WFValue` for them) and `IgnoredAny`
-    (no `Serialize` impl); zero-length tuple variants (`{"V":[]}` is read back by the text deserializer — `from_value` refuses it, the composition breaks);
-    `arbitrary_precision`. The `Serialize` impls themselves are serde's / serde_derive's (assumption; the correspondence
-    op `rtm` replays exactly these calls against the crate). -/
-theorem c04_typed_partial (mcfg : Cfg) (_hap : mcfg.ap = false) (src : Src) (ext : Ext) (hext : ExtOK ext)
+    Missing (named): the pretty formatter for the general statement (`c04_typed_pretty_partial` covers it on its own
+    fragment; the correspondence op `rtm` runs both formatters); `f32` fields (`to_string` prints an `f32` with `ryu`'s
+    binary32 digits, which is not the text of the widened `Value` — the detour through `from_value` does not apply; the leaf
+    round trip is `c04_typed_f32_leaf`); `Value` members (the text leg covers `Value` targets, but `wfTV` does not yet
+    carry `WFValue` for them) and `IgnoredAny` (no `Serialize` impl); zero-length tuple variants (`{"V":[]}` is read back by
+    the text deserializer — `from_value` refuses it, the composition breaks); `arbitrary_precision`. The `Serialize` impls
+    themselves are serde's / serde_derive's (assumption; the correspondence op `rtm` replays exactly these calls against
+    the crate). -/
+theorem c04_typed_partial (mcfg : Cfg) (hap : mcfg.ap = false) (src : Src) (ext : Ext) (hext : ExtOK ext)
     (s : Schema) (hs : Proofs.Typed.agreeFragT s = true) (v : TVal) (hw : Model.TypedSer.wfTV s v = true)
+    (hF : FloatsRoundTrip mcfg ext (Model.TypedSer.valueOf s v))
     (hd : mcfg.limitOff = true ∨ depthJV (Model.TypedSer.valueOf s v) ≤ 127) :
     ∃ bufs, serCompact ext (Model.TypedSer.progOf s v) = .ok bufs ∧
       Model.Typed.deTypedTop { cfg := mcfg, src := src } s bufs.flatten = .ok v := by
@@ -459,9 +467,10 @@ theorem c04_typed_partial (mcfg : Cfg) (_hap : mcfg.ap = false) (src : Src) (ext
     rw [htext]
     have hvok := Proofs.TypedSer.vok_valueOf s v hs hw
     have hfv := Proofs.TypedSer.fromValue_valueOf { po := mcfg.po, fr := mcfg.fr, ap := false } rfl {} s v hs hw
-    have hag := Proofs.Typed.agree_gen ext hext (env := { cfg := mcfg, src := src }) rfl
+    have hag := Proofs.Typed.agree_gen ext hext (env := { cfg := mcfg, src := src }) rfl hap
       { po := mcfg.po, fr := mcfg.fr, ap := false } rfl {} Proofs.TypedSer.RT Proofs.TypedSer.closed_RT
-      (fun h => by cases h) (Model.Typed.Schema.size s + 1) s (by omega) hs 0 (Model.TypedSer.valueOf s v) hvok
+      (fun h => by cases h) (fun w v h _ b => Proofs.TypedSer.rt_int_notFloat w v h b) Proofs.TypedSer.rt_f64_range
+      (Model.Typed.Schema.size s + 1) s (by omega) hs 0 (Model.TypedSer.valueOf s v) hvok.1 hF
       (by rcases hd with h | h
           · exact .inl h
           · exact .inr (by omega)) ⟨v, hw, rfl⟩ [] 0 (.inl rfl)
@@ -471,6 +480,30 @@ theorem c04_typed_partial (mcfg : Cfg) (_hap : mcfg.ap = false) (src : Src) (ext
     unfold Model.Typed.deTypedTop
     rw [hag]
     simp [Model.Stream.skipWs]
+
+/-- **C04 (typed values, compact) under `float_roundtrip`.** With `float_roundtrip` and the named hypothesis `RyuShortest ext`
+    about the external printer, every well-formed typed value of the fragment — *all* finite `f64` members included —
+    survives `to_string` → `from_str::<T>`: the float hypothesis of `c04_typed_partial` is C07's round trip. -/
+theorem c04_typed_fr (mcfg : Cfg) (hfr : mcfg.fr = true) (hap : mcfg.ap = false) (src : Src) (ext : Ext) (hext : ExtOK ext)
+    (hr : SJ.Proofs.LexTopRoundtrip.RyuShortest ext)
+    (s : Schema) (hs : Proofs.Typed.agreeFragT s = true) (v : TVal) (hw : Model.TypedSer.wfTV s v = true)
+    (hd : mcfg.limitOff = true ∨ depthJV (Model.TypedSer.valueOf s v) ≤ 127) :
+    ∃ bufs, serCompact ext (Model.TypedSer.progOf s v) = .ok bufs ∧
+      Model.Typed.deTypedTop { cfg := mcfg, src := src } s bufs.flatten = .ok v :=
+  c04_typed_partial mcfg hap src ext hext s hs v hw
+    (Proofs.TypedSer.floatsRT_of_finite _ ext
+      (fun b hb => SJ.Proofs.LexTopParser.floatRT_fr (specCfg mcfg) hfr hap ext hext hr b hb) _
+      (Proofs.TypedSer.vok_valueOf s v hs hw).2) hd
+
+/-- **C04 (typed values, compact) without `f64` members**: no hypothesis about the printer / parser pair, every build
+    without `arbitrary_precision` -/
+theorem c04_typed_nofloat (mcfg : Cfg) (hap : mcfg.ap = false) (src : Src) (ext : Ext) (hext : ExtOK ext)
+    (s : Schema) (hs : Proofs.Typed.agreeFragT s = true) (v : TVal) (hw : Model.TypedSer.wfTV s v = true)
+    (hnf : noFloat (Model.TypedSer.valueOf s v) = true)
+    (hd : mcfg.limitOff = true ∨ depthJV (Model.TypedSer.valueOf s v) ≤ 127) :
+    ∃ bufs, serCompact ext (Model.TypedSer.progOf s v) = .ok bufs ∧
+      Model.Typed.deTypedTop { cfg := mcfg, src := src } s bufs.flatten = .ok v :=
+  c04_typed_partial mcfg hap src ext hext s hs v hw (SJ.Proofs.RoundTrip.floatsRT_of_noFloat _ ext _ hnf) hd
 
 /-- `struct S { a: u8, b: Option<String>, e: E }` with `enum E { U, V(u8, String) }`: `{"a":7,"b":null,"e":{"V":[1,"x\n"]}}` -/
 def exSchema : Schema :=
@@ -486,7 +519,158 @@ example : (serCompact ext0 (Model.TypedSer.progOf exSchema exTV)).map List.flatt
 
 example : ∃ bufs, serCompact ext0 (Model.TypedSer.progOf exSchema exTV) = .ok bufs ∧
     Model.Typed.deTypedTop { cfg := {}, src := .reader } exSchema bufs.flatten = .ok exTV :=
-  c04_typed_partial {} rfl .reader ext0 ext0_ok exSchema (by decide) exTV (by decide) (.inr (by decide))
+  c04_typed_partial {} rfl .reader ext0 ext0_ok exSchema (by decide) exTV (by decide) (by decide) (.inr (by decide))
+
+/-- the pretty formatter's layout for a whitespace indent: a line break and `depth` copies of the indent before every element /
+    member and before the closing bracket, one space after the colon -/
+def prettyLay (indent : Bytes) (hind : Ws indent) : Proofs.TypedPretty.Lay :=
+  ⟨Spec.Image.newline indent, [0x20], fun d => Proofs.TypedPretty.wsB_of_ws (SJ.Proofs.SerLayout.ws_newline indent hind d),
+   fun c hc => by simp at hc; subst hc; decide⟩
+
+/-- **C04 (typed values, PRETTY formatter) — partial** (the name says what `c04_typed_partial` leaves out, not the formatter:
+    on its fragment the pretty statement is complete). For every schema of `agreeFragT` and every well-formed typed value
+    as in `c04_typed_partial` (same hypotheses: `wfTV`, `FloatsRoundTrip` on the `f64` members, depth), and every indent made
+    of JSON whitespace (`Ws indent`; `to_string_pretty` uses two spaces): `to_string_pretty` — the calls `Serialize` makes run
+    through `serPretty` — succeeds, and `from_str::<T>` of that text (typed deserializer + `end()`, any source) returns `v`.
+    By composition: C03 (`c03_pretty_layout`: the text is `layout indent` of the program's image), `image_progOf`,
+    `fromValue_valueOf`, and the text leg on a LAYOUT (`agree_gen_L`, `Proofs/TypedPretty*.lean`: the typed reader skips
+    whitespace wherever the pretty printer puts it — before every element, member and closing bracket, after every `:`).
+    Missing: exactly what `c04_typed_partial` misses (`f32` members, `Value` members, zero-length tuple variants,
+    `arbitrary_precision`). -/
+theorem c04_typed_pretty_partial (mcfg : Cfg) (hap : mcfg.ap = false) (src : Src) (ext : Ext) (hext : ExtOK ext)
+    (indent : Bytes) (hind : Ws indent)
+    (s : Schema) (hs : Proofs.Typed.agreeFragT s = true) (v : TVal) (hw : Model.TypedSer.wfTV s v = true)
+    (hF : FloatsRoundTrip mcfg ext (Model.TypedSer.valueOf s v))
+    (hd : mcfg.limitOff = true ∨ depthJV (Model.TypedSer.valueOf s v) ≤ 127) :
+    ∃ bufs, serPretty ext indent (Model.TypedSer.progOf s v) = .ok bufs ∧
+      Model.Typed.deTypedTop { cfg := mcfg, src := src } s bufs.flatten = .ok v := by
+  have himg := Proofs.TypedSer.image_progOf ext hext s v hw
+  have hpw := Proofs.TypedSer.progOf_wf s v hw
+  cases hser : serPretty ext indent (Model.TypedSer.progOf s v) with
+  | error e =>
+    have := ((SJ.Props.C03.c03_error_iff ext hext _ e).2 indent).1 hser
+    rw [himg] at this; cases this
+  | ok bufs =>
+    refine ⟨bufs, rfl, ?_⟩
+    obtain ⟨d, hd', htext, _⟩ := SJ.Props.C03.c03_pretty_layout ext hext indent _ hpw bufs hser
+    rw [himg] at hd'; cases hd'
+    rw [htext]
+    have hvok := Proofs.TypedSer.vok_valueOf s v hs hw
+    have hfv := Proofs.TypedSer.fromValue_valueOf { po := mcfg.po, fr := mcfg.fr, ap := false } rfl {} s v hs hw
+    have hag := Proofs.TypedPretty.agree_gen_L ext (prettyLay indent hind) hext (env := { cfg := mcfg, src := src }) rfl hap
+      { po := mcfg.po, fr := mcfg.fr, ap := false } rfl {} Proofs.TypedSer.RT Proofs.TypedSer.closed_RT
+      (fun h => by cases h) (fun w v h _ b => Proofs.TypedSer.rt_int_notFloat w v h b) Proofs.TypedSer.rt_f64_range
+      Proofs.TypedSer.rt_struct_notArr (fun fs kvs h => Proofs.TypedSer.rt_struct_known fs false kvs h)
+      (Model.Typed.Schema.size s + 1) s (by omega) hs 0 0 (Model.TypedSer.valueOf s v) hvok.1 hF
+      (by rcases hd with h | h
+          · exact .inl h
+          · exact .inr (by omega)) ⟨v, hw, rfl⟩ [] 0 (.inl rfl)
+    rw [hfv] at hag
+    simp only [List.append_nil] at hag
+    have hT : Proofs.TypedPretty.TL ext (prettyLay indent hind) 0 (Model.TypedSer.valueOf s v) =
+        Spec.Image.layout indent (Spec.Image.imageOfValue ext (Model.TypedSer.valueOf s v)) := rfl
+    rw [hT] at hag
+    unfold Model.Typed.deTypedTop
+    rw [hag]
+    simp [Model.Stream.skipWs]
+
+/-- **C04 (typed values, pretty) under `float_roundtrip`**: all finite `f64` members, from `RyuShortest` -/
+theorem c04_typed_pretty_fr (mcfg : Cfg) (hfr : mcfg.fr = true) (hap : mcfg.ap = false) (src : Src) (ext : Ext) (hext : ExtOK ext)
+    (hr : SJ.Proofs.LexTopRoundtrip.RyuShortest ext) (indent : Bytes) (hind : Ws indent)
+    (s : Schema) (hs : Proofs.Typed.agreeFragT s = true) (v : TVal) (hw : Model.TypedSer.wfTV s v = true)
+    (hd : mcfg.limitOff = true ∨ depthJV (Model.TypedSer.valueOf s v) ≤ 127) :
+    ∃ bufs, serPretty ext indent (Model.TypedSer.progOf s v) = .ok bufs ∧
+      Model.Typed.deTypedTop { cfg := mcfg, src := src } s bufs.flatten = .ok v :=
+  c04_typed_pretty_partial mcfg hap src ext hext indent hind s hs v hw
+    (Proofs.TypedSer.floatsRT_of_finite _ ext
+      (fun b hb => SJ.Proofs.LexTopParser.floatRT_fr (specCfg mcfg) hfr hap ext hext hr b hb) _
+      (Proofs.TypedSer.vok_valueOf s v hs hw).2) hd
+
+/-- **C04 (typed values), the `f32` leaf under `float_roundtrip`.** `to_string(x)` for a finite `x : f32` (the serializer
+    prints it with `ryu`'s binary32 digits) followed by `from_str::<f32>` returns `x`, bit for bit (`-0.0` and subnormals
+    included), from every source: the typed `f32` path (`single_precision`: parse straight to binary32, `Typed.f32Roundtrip`)
+    is lexical's correctly rounded conversion (`c07_typed_f32_link`, `c07_correct`), and `ryu`'s shortest digits round back
+    (`RyuShortest`). `f32` MEMBERS of containers are not covered by `c04_typed_partial` (its composition goes through
+    `from_value(to_value(x))`, and `to_value` widens an `f32` to an `f64` whose text differs). -/
+theorem c04_typed_f32_leaf (mcfg : Cfg) (hfr : mcfg.fr = true) (src : Src) (ext : Ext) (hext : ExtOK ext)
+    (hr : SJ.Proofs.LexTopRoundtrip.RyuShortest ext) (b : UInt32) (hb : Spec.Program.finite32 b = true) :
+    ∃ bufs, serCompact ext (Model.TypedSer.progOf .f32 (.f32 b)) = .ok bufs ∧
+      Model.Typed.deTypedTop { cfg := mcfg, src := src } .f32 bufs.flatten = .ok (.f32 b) := by
+  have himg : Spec.Image.image ext (Model.TypedSer.progOf .f32 (.f32 b)) = .ok (Spec.Image.numOf (ext.ryu32 b)) := by
+    simp [Model.TypedSer.progOf, Spec.Image.image, hb]
+  cases hser : serCompact ext (Model.TypedSer.progOf .f32 (.f32 b)) with
+  | error e =>
+    have := ((SJ.Props.C03.c03_error_iff ext hext _ e).1).1 hser
+    rw [himg] at this; cases this
+  | ok bufs =>
+    refine ⟨bufs, rfl, ?_⟩
+    obtain ⟨d, hd', htext, _⟩ := SJ.Props.C03.c03_compact ext hext _ rfl bufs hser
+    rw [himg] at hd'; cases hd'
+    rw [htext]
+    have htxt : Spec.Image.render (Spec.Image.numOf (ext.ryu32 b)) = ext.ryu32 b := by
+      simp only [Spec.Image.render, Spec.Image.numOf, Spec.Image.layoutWith]
+      exact SJ.Proofs.Number.splitNumber_bytes _
+    rw [htxt]
+    have := SJ.Proofs.TypedFloat.deNumber_f32_ryu { cfg := mcfg, src := src } rfl hfr ext hext hr b hb [] 0 (.inl rfl)
+    simp only [List.append_nil] at this
+    unfold Model.Typed.deTypedTop
+    have hsz : Model.Typed.Schema.size Schema.f32 + 1 = 1 + 1 := rfl
+    rw [hsz, SJ.Proofs.Typed.deTyped_f32, this]
+    simp [Model.Stream.skipWs]
+
+/-- the named hypothesis for an `f32` in a build without `float_roundtrip`: the text `ryu` prints for the `f32`, converted by the
+    configured (default) algorithm to an `f64` and cast by serde's visitor (`as f32`), is the `f32` again. (It holds for every
+    finite `f32` when the conversion is within the 2^29-fold slack between `f64` and `f32` precision of the 9-digit decimal —
+    C08's bounds; not proved here: the harness op `f32all` of C07 checks all 2^32 patterns in the default build.) -/
+def F32RoundTrip (cfg : Cfg) (ext : Ext) (b : UInt32) : Prop :=
+  ∃ y, Spec.Canon.numOf (specCfg cfg) (Spec.Number.splitNumber (ext.ryu32 b)) = some (Num.float y) ∧ Model.FromValue.f64ToF32 y = b
+
+/-- **C04 (typed values), the `f32` leaf in the default build** under the named hypothesis `F32RoundTrip` -/
+theorem c04_typed_f32_leaf_default (mcfg : Cfg) (hfr : mcfg.fr = false) (hap : mcfg.ap = false) (src : Src) (ext : Ext)
+    (hext : ExtOK ext) (b : UInt32) (hb : Spec.Program.finite32 b = true) (hrt : F32RoundTrip mcfg ext b) :
+    ∃ bufs, serCompact ext (Model.TypedSer.progOf .f32 (.f32 b)) = .ok bufs ∧
+      Model.Typed.deTypedTop { cfg := mcfg, src := src } .f32 bufs.flatten = .ok (.f32 b) := by
+  have himg : Spec.Image.image ext (Model.TypedSer.progOf .f32 (.f32 b)) = .ok (Spec.Image.numOf (ext.ryu32 b)) := by
+    simp [Model.TypedSer.progOf, Spec.Image.image, hb]
+  cases hser : serCompact ext (Model.TypedSer.progOf .f32 (.f32 b)) with
+  | error e =>
+    have := ((SJ.Props.C03.c03_error_iff ext hext _ e).1).1 hser
+    rw [himg] at this; cases this
+  | ok bufs =>
+    refine ⟨bufs, rfl, ?_⟩
+    obtain ⟨d, hd', htext, _⟩ := SJ.Props.C03.c03_compact ext hext _ rfl bufs hser
+    rw [himg] at hd'; cases hd'
+    rw [htext]
+    have htxt : Spec.Image.render (Spec.Image.numOf (ext.ryu32 b)) = ext.ryu32 b := by
+      simp only [Spec.Image.render, Spec.Image.numOf, Spec.Image.layoutWith]
+      exact SJ.Proofs.Number.splitNumber_bytes _
+    rw [htxt]
+    obtain ⟨y, hy, hyb⟩ := hrt
+    have := SJ.Proofs.TypedFloat.deNumber_f32_default (env := { cfg := mcfg, src := src }) rfl hap ext hext hfr b hb y hy [] 0 (.inl rfl)
+    simp only [List.append_nil] at this
+    unfold Model.Typed.deTypedTop
+    have hsz : Model.Typed.Schema.size Schema.f32 + 1 = 1 + 1 := rfl
+    rw [hsz, SJ.Proofs.Typed.deTyped_f32, this, hyb]
+    simp [Model.Stream.skipWs]
+
+/-- `struct P { x: f64, n: Vec<u8> }` with `x = 1.5` (`ext0` prints `1.5`): the float hypothesis holds at this value (by
+    evaluation of the default conversion on `1.5`), so the pair round-trips by the theorem -/
+def exFSchema : Schema := .struct_ [([0x78], .f64), ([0x6e], .seq (.int .u8))] false
+def exFTV : TVal := .struct_ [.f64 0x3ff8000000000000, .seq [.int 1, .int 2]]
+
+example : ∃ bufs, serCompact ext0 (Model.TypedSer.progOf exFSchema exFTV) = .ok bufs ∧
+    Model.Typed.deTypedTop { cfg := {}, src := .slice } exFSchema bufs.flatten = .ok exFTV :=
+  c04_typed_partial {} rfl .slice ext0 ext0_ok exFSchema (by decide) exFTV (by decide) (by decide +kernel) (.inr (by decide))
+
+/-- the same two values through the pretty printer (indent: two spaces; a tab), read back from a reader -/
+example : ∃ bufs, serPretty ext0 [0x20, 0x20] (Model.TypedSer.progOf exSchema exTV) = .ok bufs ∧
+    Model.Typed.deTypedTop { cfg := {}, src := .reader } exSchema bufs.flatten = .ok exTV :=
+  c04_typed_pretty_partial {} rfl .reader ext0 ext0_ok [0x20, 0x20] (by decide) exSchema (by decide) exTV (by decide) (by decide)
+    (.inr (by decide))
+example : ∃ bufs, serPretty ext0 [0x09] (Model.TypedSer.progOf exFSchema exFTV) = .ok bufs ∧
+    Model.Typed.deTypedTop { cfg := {}, src := .slice } exFSchema bufs.flatten = .ok exFTV :=
+  c04_typed_pretty_partial {} rfl .slice ext0 ext0_ok [0x09] (by decide) exFSchema (by decide) exFTV (by decide) (by decide +kernel)
+    (.inr (by decide))
 
 /-- the exception is needed: `Some(())` serialises as `null` and reads back as `None` -/
 example : Model.TypedSer.wfTV (.option .unit) (.some .unit) = false ∧
